@@ -57,7 +57,9 @@ def probe():
     global _PROBE
     if _PROBE is None:
         forms = [f'=A1{o}B1' for _, o in OPS] + [f'=B1{o}A1' for _, o in OPS]
-        _PROBE = repo.Probe(forms)
+        # the operand cells hold content in the workbook (a number, a text): every evaluation overrides both, a blank operand is the
+        # override None - a cleared cell is blank whatever the workbook stored in it
+        _PROBE = repo.Probe(forms, {(0, 0): 5, (1, 0): 'stored'})
     return _PROBE
 
 
@@ -82,12 +84,7 @@ def obs_ovr(pairs):
         if ses is not None:
             out.append(six(ses.eval([(0, 0, 0, py_value(a)), (0, 1, 0, py_value(b))])))
             continue
-        ov = []
-        if a['k'] != 'blank':
-            ov.append((0, 0, 0, py_value(a)))
-        if b['k'] != 'blank':
-            ov.append((0, 1, 0, py_value(b)))
-        out.append(six(p.eval(ov)))
+        out.append(six(p.eval([(0, 0, 0, py_value(a)), (0, 1, 0, py_value(b))])))
     return out
 
 
